@@ -43,10 +43,9 @@ def activate(variant="plain"):
         if m == "ciderpress" or m.startswith("ciderpress."):
             raise RuntimeError("ciderpress imported before cidersim.boot.activate()")
     if _build.VARIANTS[variant]["sim"]:
-        # the simulator must be globally visible before the libraries that need it
-        _state["libs"]["libsimgomp"] = ctypes.CDLL(
-            os.path.join(d, "libsimgomp.so"), mode=ctypes.RTLD_GLOBAL
-        )
+        # NOT RTLD_GLOBAL: the simulator must only serve the CiderPress libraries (which
+        # link to it by DT_NEEDED + rpath), never OpenMP code of numpy/scipy/sklearn/pyscf
+        _state["libs"]["libsimgomp"] = ctypes.CDLL(os.path.join(d, "libsimgomp.so"))
 
     def load_library(libname):
         if libname not in _state["libs"]:
